@@ -190,8 +190,15 @@ def version_tables_per_platform(ctx: Ctx, rep: Report, sel=None, rid: str = "R09
         sel = selection_table(ctx, sub_)
     rep.rule(rid)
     by_plat: Dict[Tuple[str, str], Dict[int, str]] = {}
+    # tables are compared by CONTENT (the same names and numbers under another constant name are the same table; two
+    # platforms may legitimately have equal tables), and a shared table counts only between two platforms that BOTH
+    # choose by version: a platform with one table for all versions that equals another platform's alternative is a
+    # coincidence of the data, not a version test gone astray
+    names_of: Dict[str, str] = {}
     for (proto, plat, major), (tname, _t) in sel.items():
-        by_plat.setdefault((proto, plat), {})[major] = tname
+        key = repr(sorted(_t.items())) if isinstance(_t, dict) else tname
+        names_of.setdefault(key, tname)
+        by_plat.setdefault((proto, plat), {})[major] = key
     n17 = 0
     for (proto, plat), per_major in sorted(by_plat.items()):
         n17 += 1
@@ -200,13 +207,12 @@ def version_tables_per_platform(ctx: Ctx, rep: Report, sel=None, rid: str = "R09
         bad17 = None
         if len(tabs) > 1:
             for (proto2, plat2), per2 in by_plat.items():
-                if proto2 == proto and plat2 != plat:
+                if proto2 == proto and plat2 != plat and len(set(per2.values())) > 1:
                     shared = tabs & set(per2.values())
-                    # the same content under another name is the same table
                     if shared:
-                        bad17 = (plat2, sorted(shared)[0], sorted(m for m, t in per_major.items() if t in shared))
+                        bad17 = (plat2, names_of[sorted(shared)[0]], sorted(m for m, t in per_major.items() if t in shared))
         if bad17:
-            rep.violation("PortName.names", f"protocol={proto} platform={plat}: {sorted(tabs)}", f"platform {plat} selects {bad17[1]} for version major {bad17[2]} only, and platform {bad17[0]} selects that table too: the version test applies outside the platform it belongs to, so {plat} entries of that version are read and written with another platform's names", "cisco_acl/port_name.py", inp=f"Ace('permit {proto} any any eq <a name only {plat} knows>', platform='{plat}', version='{bad17[2][0]}')")
+            rep.violation("PortName.names", f"protocol={proto} platform={plat}: {sorted(names_of[t] for t in tabs)}", f"platform {plat} selects {bad17[1]} for version major {bad17[2]} only, and platform {bad17[0]} selects that table too: the version test applies outside the platform it belongs to, so {plat} entries of that version are read and written with another platform's names", "cisco_acl/port_name.py", inp=f"Ace('permit {proto} any any eq <a name only {plat} knows>', platform='{plat}', version='{bad17[2][0]}')")
         else:
             rep.ok(f"names() protocol={proto} platform={plat}", f"{len(tabs)} table(s), none shared with another platform for part of the versions", nontrivial=False)
     if n17 == 0:
